@@ -13,6 +13,8 @@ import JSV.Proofs.FloatMult
 import JSV.Generated.Facts
 import JSV.Proofs.SpecLaws
 import JSV.Proofs.SpecLawsCongr
+import JSV.Proofs.SpecLawsScope
+import JSV.Proofs.SpecLawsSplit
 namespace JSV.C01
 open JSV Go GoVal Refine
 
@@ -756,6 +758,108 @@ theorem type_integer_number (s' : NodeId) (n' : Node) (scope' : List NodeId) (hn
     | false => rw [hm] at h; simp at h
   rw [Laws.typeMatches_integer_number j hi]; rfl
 
+/-! ### the dynamic scope in these laws
+
+`allOf [t]` applies `t` with the wrapper on the dynamic scope.  That is immaterial when no `$dynamicAnchor` is declared, and
+when the wrapper belongs to the schema resource of `t`: then "`allOf [t]` is `t`" holds with the same scope. -/
+
+/-- without `$dynamicAnchor` anywhere, the dynamic scope is immaterial -/
+theorem scope_irrelevant (h : ∀ r name, env.dynDecl r name = none) (scope' : List NodeId) :
+    Spec.evalFuel env fuel scope s j = Spec.evalFuel env fuel scope' s j :=
+  Laws.evalFuel_scope_eqv env fuel scope scope' s j (Laws.ScopeEqv_of_no_dynamic env h scope scope')
+
+/-- entering a wrapper of the same schema resource first changes nothing -/
+theorem scope_wrapper (a : NodeId) (h : env.resource a = env.resource s) :
+    Spec.evalFuel env fuel (scope ++ [a]) s j = Spec.evalFuel env fuel scope s j :=
+  Laws.evalFuel_wrapper env fuel scope a s j h
+
+/-- `allOf [t]`, wrapper and `t` in one schema resource: exactly the outcome of `t` under the same scope -/
+theorem allOf_singleton_same_resource (t : NodeId) (hn : env.st.get? s = some n)
+    (hk : Laws.keywords n = { allOf := some [t] }) (hres : env.resource s = env.resource t) :
+    Spec.evalFuel env (fuel + 1) scope s j = Spec.evalFuel env fuel scope t j := by
+  rw [allOf_singleton env fuel scope s n j t hn hk, Laws.evalFuel_wrapper env fuel scope s t j hres]
+
+/-- `not (not t)` in one schema resource: the verdict of `t` under the same scope, nothing evaluated -/
+theorem not_not_same_resource (m : NodeId) (nm : Node) (t : NodeId) (hn : env.st.get? s = some n)
+    (hk : Laws.keywords n = { not := some m }) (hm : env.st.get? m = some nm) (hkm : Laws.keywords nm = { not := some t })
+    (hs : env.resource s = env.resource t) (hmr : env.resource m = env.resource t) :
+    Spec.evalFuel env (fuel + 2) scope s j = (Spec.evalFuel env fuel scope t j).map fun r => r.map fun _ => {} := by
+  rw [not_not env fuel scope s n j m nm t hn hk hm hkm, Laws.evalFuel_wrapper2 env fuel scope s m t j hs hmr]
+
+/-! ### 7. adjacent keywords are a conjunction
+
+`Laws.Group` lists the groups of keywords that the Spec evaluates independently (`properties` + `patternProperties` +
+`additionalProperties` is ONE group, so are `prefixItems` + `items`, `contains` + `minContains` + `maxContains`,
+`if` + `then` + `else`); `Laws.pick sel n` is the schema object with the selected groups of `n` only.  The side condition is
+`unevaluatedItems` / `unevaluatedProperties` (they read what ALL the other keywords evaluated) and, under draft-07, `$ref`
+(which silences its siblings). -/
+
+/-- `allOf [t1, t2]` is the conjunction of `t1` and `t2`: defined iff both are, valid iff both are, evaluated sets united -/
+theorem allOf_pair (t1 t2 : NodeId) (hn : env.st.get? s = some n) (hk : Laws.keywords n = { allOf := some [t1, t2] }) :
+    Spec.evalFuel env (fuel + 1) scope s j
+      = Laws.oconj2 (Spec.evalFuel env fuel (scope ++ [s]) t1 j) (Spec.evalFuel env fuel (scope ++ [s]) t2 j) := by
+  rw [Laws.evalFuel_succ_of env fuel scope s j n _ hn hk, Laws.specBody_allOf, Laws.kwAllOf_pair _ _ _ t1 t2 rfl]
+
+/-- one step of the Spec at a schema object without `unevaluated*`: the conjunction of the steps at its two parts,
+    whatever the selection of keyword groups and whatever the subschema applications return (the three stores differ at
+    `s` only: the object, its selected groups, the others) -/
+theorem adjacent_keywords_step (rec : Spec.Rec) (sel : Laws.Group → Bool) (hn : env.st.get? s = some n)
+    (hu : Laws.NoUneval n) (h7 : env.draft = .d2020 ∨ n.ref = "") :
+    Inv.OutSim (Spec.evalStep env rec scope s j)
+      (Laws.oconj2 (Spec.evalStep { env with st := env.st.setIfInBounds s (Laws.pick sel n) } rec scope s j)
+        (Spec.evalStep { env with st := env.st.setIfInBounds s (Laws.pick (fun g => !sel g) n) } rec scope s j)) := by
+  have hlt : s < env.st.size := (Array.getElem?_eq_some_iff.1 hn).1
+  have hget : ∀ m : Node, Store.get? (env.st.setIfInBounds s m) s = some m := by
+    intro m
+    show (env.st.setIfInBounds s m)[s]? = some m
+    rw [Array.getElem?_setIfInBounds_self, if_pos hlt]
+  rw [Inv.evalStep_unfold, Inv.evalStep_unfold, Inv.evalStep_unfold, hn]
+  show Inv.OutSim _ (Laws.oconj2
+    (match Store.get? (env.st.setIfInBounds s (Laws.pick sel n)) s with
+      | none => none
+      | some m => Inv.specBody { env with st := _ } rec scope s j m)
+    (match Store.get? (env.st.setIfInBounds s (Laws.pick (fun g => !sel g) n)) s with
+      | none => none
+      | some m => Inv.specBody { env with st := _ } rec scope s j m))
+  rw [hget, hget]
+  show Inv.OutSim _ (Laws.oconj2 (Inv.specBody { env with st := _ } rec scope s j _)
+    (Inv.specBody { env with st := _ } rec scope s j _))
+  rw [Inv.specBody_store, Inv.specBody_store]
+  apply Laws.specBody_split env rec scope s j n sel hu
+  rcases h7 with h | h
+  · simp [h]
+  · simp [h]
+
+/-- in one store: `s` (no `unevaluated*`, `$ref`, `$dynamicRef`) against `s1` with the selected keyword groups of `s` and
+    `s2` with the others, under scopes that designate alike (`Laws.ScopeEqv_same_resource`, `Laws.ScopeEqv_of_no_dynamic`):
+    `s` is defined iff `s1` and `s2` are, and valid iff both are (`Laws.verdict2 (some r1) (some r2) = some (r1.isSome &&
+    r2.isSome)`, undefined otherwise) -/
+theorem adjacent_keywords_verdict (s1 s2 : NodeId) (n1 n2 : Node) (sel : Laws.Group → Bool)
+    (hn : env.st.get? s = some n) (hn1 : env.st.get? s1 = some n1) (hn2 : env.st.get? s2 = some n2)
+    (hk1 : Laws.keywords n1 = Laws.pick sel n) (hk2 : Laws.keywords n2 = Laws.pick (fun g => !sel g) n)
+    (hu : Laws.NoUneval n) (hr : n.ref = "") (hd : n.dynamicRef = "")
+    (hs1 : Laws.ScopeEqv env (scope ++ [s1]) (scope ++ [s])) (hs2 : Laws.ScopeEqv env (scope ++ [s2]) (scope ++ [s])) :
+    (Spec.evalFuel env (fuel + 1) scope s j).map (·.isSome)
+      = Laws.verdict2 (Spec.evalFuel env (fuel + 1) scope s1 j) (Spec.evalFuel env (fuel + 1) scope s2 j) := by
+  rw [← Laws.oconj2_verdict]
+  exact Laws.OutSim.verdict_eq
+    (Laws.evalFuel_split env fuel scope s s1 s2 n n1 n2 j sel hn hn1 hn2 hk1 hk2 hu hr hd hs1 hs2)
+
+/-- … and then the evaluated sets of `s` are the unions of those of `s1` and `s2` -/
+theorem adjacent_keywords_evaluated (s1 s2 : NodeId) (n1 n2 : Node) (sel : Laws.Group → Bool)
+    (hn : env.st.get? s = some n) (hn1 : env.st.get? s1 = some n1) (hn2 : env.st.get? s2 = some n2)
+    (hk1 : Laws.keywords n1 = Laws.pick sel n) (hk2 : Laws.keywords n2 = Laws.pick (fun g => !sel g) n)
+    (hu : Laws.NoUneval n) (hr : n.ref = "") (hd : n.dynamicRef = "")
+    (hs1 : Laws.ScopeEqv env (scope ++ [s1]) (scope ++ [s])) (hs2 : Laws.ScopeEqv env (scope ++ [s2]) (scope ++ [s]))
+    (e e1 e2 : Spec.Ev) (h : Spec.evalFuel env (fuel + 1) scope s j = some (some e))
+    (h1 : Spec.evalFuel env (fuel + 1) scope s1 j = some (some e1))
+    (h2 : Spec.evalFuel env (fuel + 1) scope s2 j = some (some e2)) :
+    (∀ k, k ∈ e.props ↔ k ∈ e1.props ∨ k ∈ e2.props) ∧ (∀ i, i ∈ e.items ↔ i ∈ e1.items ∨ i ∈ e2.items) := by
+  have := Laws.evalFuel_split env fuel scope s s1 s2 n n1 n2 j sel hn hn1 hn2 hk1 hk2 hu hr hd hs1 hs2
+  rw [h, h1, h2] at this
+  have h' : Inv.EvEqv e (e1.union e2) := this
+  exact ⟨fun k => by rw [h'.1 k]; simp [Spec.Ev.union], fun i => by rw [h'.2 i]; simp [Spec.Ev.union]⟩
+
 end laws
 
 /-! ### the same laws for the evaluator -/
@@ -965,6 +1069,49 @@ theorem type_integer_number_go (s' : NodeId) (n' : Node) (stack' : List NodeId)
   exact Laws.go_verdict env hwf hst _ _ hstack' s' j hj _
     (type_integer_number (specEnvOf env) fuel stack s n j s' n' stack' hn hk hn' hk' hs)
 
+/-- evaluator: `allOf [t1, t2]` returns nil exactly when `t1` and `t2` do -/
+theorem allOf_pair_go (t1 t2 : NodeId) (hn : env.st.get? s = some n) (hk : Laws.keywords n = { allOf := some [t1, t2] })
+    (h1 : (Spec.evalFuel (specEnvOf env) fuel (stack ++ [s]) t1 j).isSome = true)
+    (h2 : (Spec.evalFuel (specEnvOf env) fuel (stack ++ [s]) t2 j).isSome = true) :
+    ∃ b1 b2, (Go.validateFuel env fuel (stack ++ [s]) (GoVal.ofJson j) t1).verdict = some b1 ∧
+      (Go.validateFuel env fuel (stack ++ [s]) (GoVal.ofJson j) t2).verdict = some b2 ∧
+      (Go.validateFuel env (fuel + 1) stack (GoVal.ofJson j) s).verdict = some (b1 && b2) := by
+  have hs' := Laws.stack_snoc env hwf stack hstack s n hn
+  obtain ⟨r1, hr1⟩ := Option.isSome_iff_exists.1 h1
+  obtain ⟨r2, hr2⟩ := Option.isSome_iff_exists.1 h2
+  have hl := allOf_pair (specEnvOf env) fuel stack s n j t1 t2 hn hk
+  rw [hr1, hr2] at hl
+  refine ⟨r1.isSome, r2.isSome, Laws.go_verdict env hwf hst _ _ hs' t1 j hj r1 hr1,
+    Laws.go_verdict env hwf hst _ _ hs' t2 j hj r2 hr2, ?_⟩
+  rw [Laws.go_verdict env hwf hst _ _ hstack s j hj _ hl]
+  cases r1 <;> cases r2 <;> rfl
+
+/-- evaluator: a schema object (no `unevaluated*`, `$ref`, `$dynamicRef`) returns nil exactly when the object with a
+    selection of its keyword groups and the object with the remaining ones both do -/
+theorem adjacent_keywords_go (s1 s2 : NodeId) (n1 n2 : Node) (sel : Laws.Group → Bool)
+    (hn : env.st.get? s = some n) (hn1 : env.st.get? s1 = some n1) (hn2 : env.st.get? s2 = some n2)
+    (hk1 : Laws.keywords n1 = Laws.pick sel n) (hk2 : Laws.keywords n2 = Laws.pick (fun g => !sel g) n)
+    (hu : Laws.NoUneval n) (hr : n.ref = "") (hd : n.dynamicRef = "")
+    (hs1 : Laws.ScopeEqv (specEnvOf env) (stack ++ [s1]) (stack ++ [s]))
+    (hs2 : Laws.ScopeEqv (specEnvOf env) (stack ++ [s2]) (stack ++ [s]))
+    (h1 : (Spec.evalFuel (specEnvOf env) (fuel + 1) stack s1 j).isSome = true)
+    (h2 : (Spec.evalFuel (specEnvOf env) (fuel + 1) stack s2 j).isSome = true) :
+    ∃ b1 b2, (Go.validateFuel env (fuel + 1) stack (GoVal.ofJson j) s1).verdict = some b1 ∧
+      (Go.validateFuel env (fuel + 1) stack (GoVal.ofJson j) s2).verdict = some b2 ∧
+      (Go.validateFuel env (fuel + 1) stack (GoVal.ofJson j) s).verdict = some (b1 && b2) := by
+  obtain ⟨r1, hr1⟩ := Option.isSome_iff_exists.1 h1
+  obtain ⟨r2, hr2⟩ := Option.isSome_iff_exists.1 h2
+  have hv := adjacent_keywords_verdict (specEnvOf env) fuel stack s n j s1 s2 n1 n2 sel hn hn1 hn2 hk1 hk2 hu hr hd hs1 hs2
+  rw [hr1, hr2, Laws.verdict2_some] at hv
+  refine ⟨r1.isSome, r2.isSome, Laws.go_verdict env hwf hst _ _ hstack s1 j hj r1 hr1,
+    Laws.go_verdict env hwf hst _ _ hstack s2 j hj r2 hr2, ?_⟩
+  cases hr : Spec.evalFuel (specEnvOf env) (fuel + 1) stack s j with
+  | none => rw [hr] at hv; cases hv
+  | some r =>
+    rw [hr] at hv
+    simp only [Option.map_some, Option.some.injEq] at hv
+    rw [Laws.go_verdict env hwf hst _ _ hstack s j hj r hr, hv]
+
 end laws_go
 
 /-! ### the laws instantiated
@@ -997,7 +1144,19 @@ def lawStore : Store := #[
   /- 21 -/ { types := some ["string"], enum := some [.str "x", .str "y", .str "x"], title := "t" },
   /- 22 -/ { allOf := some [13], unevaluatedProperties := some 1 },
   /- 23 -/ { const := some (.str "x"), maxLength := some 3 },
-  /- 24 -/ { allOf := some [23, 21] } ]
+  /- 24 -/ { allOf := some [23, 21] },
+  /- 25 -/ { type := "object", properties := some [("a", 3)], required := some ["a"], anyOf := some [2, 3] },
+  /- 26 -/ { properties := some [("a", 3)], anyOf := some [2, 3] },
+  /- 27 -/ { type := "object", required := some ["a"], comment := "the rest of 25" },
+  /- 28 -/ { allOf := some [26, 27] },
+  /- 29 -/ { properties := some [("a", 0)], additionalProperties := some 1 },
+  /- 30 -/ { properties := some [("a", 0)] },
+  /- 31 -/ { additionalProperties := some 1 },
+  /- 32 -/ { prefixItems := some [3], items := some 1 },
+  /- 33 -/ { prefixItems := some [3] },
+  /- 34 -/ { items := some 1 },
+  /- 35 -/ { properties := some [("a", 0)], unevaluatedProperties := some 1 },
+  /- 36 -/ { unevaluatedProperties := some 1 } ]
 
 def lawEnv : VEnv :=
   { st := lawStore, draft := .d2020, infos := (List.range lawStore.size).map fun i => (i, { base := some 0 }),
@@ -1127,5 +1286,67 @@ example : (Spec.evalFuel (specEnvOf lawEnv) 1 [] 19 (.num (5 / 2))).map (·.isSo
 example : (Go.validateFuel lawEnv 1 [] (GoVal.ofJson (.num 2)) 20).verdict = some true :=
   type_integer_number_go lawEnv lawEnv_wf lawEnv_store 0 [] (fun _ h => nomatch h) 19 _ (.num 2) (by decide) 20 _ []
     (fun _ h => nomatch h) rfl rfl rfl rfl (by decide)
+
+/-- 7: node 25 = `{"type": "object", "properties": {"a": …}, "required": ["a"], "anyOf": […]}` against node 26 (its
+    `properties` and `anyOf`) and node 27 (its `type` and `required`), all of one schema resource -/
+def lawSel : Laws.Group → Bool := fun g => g == .props || g == .anyOf
+
+theorem lawScope (a b : NodeId) (ha : a < lawStore.size) (hb : b < lawStore.size) :
+    Laws.ScopeEqv (specEnvOf lawEnv) ([] ++ [a]) ([] ++ [b]) := by
+  have hres : ∀ x, x < lawStore.size → (specEnvOf lawEnv).resource x = some 0 := by decide
+  exact Laws.ScopeEqv_same_resource (specEnvOf lawEnv) (some 0) [] [a] [b] (by simp) (by simp)
+    (by intro x hx; simp at hx; subst hx; exact hres x ha) (by intro x hx; simp at hx; subst hx; exact hres x hb)
+
+example : (Spec.evalFuel (specEnvOf lawEnv) 3 [] 25 lawGood).map (·.isSome)
+    = Laws.verdict2 (Spec.evalFuel (specEnvOf lawEnv) 3 [] 26 lawGood) (Spec.evalFuel (specEnvOf lawEnv) 3 [] 27 lawGood) :=
+  adjacent_keywords_verdict (specEnvOf lawEnv) 2 [] 25 _ lawGood 26 27 _ _ lawSel rfl rfl rfl rfl rfl ⟨rfl, rfl⟩ rfl rfl
+    (lawScope 26 25 (by decide) (by decide)) (lawScope 27 25 (by decide) (by decide))
+example : (Spec.evalFuel (specEnvOf lawEnv) 3 [] 25 lawGood).map (·.isSome) = some true := by decide
+/-- `{"a": 1}`: the `properties` half rejects, the `type`/`required` half accepts, the whole rejects -/
+example : ∃ b1 b2, (Go.validateFuel lawEnv 3 [] (GoVal.ofJson lawBad) 26).verdict = some b1 ∧
+    (Go.validateFuel lawEnv 3 [] (GoVal.ofJson lawBad) 27).verdict = some b2 ∧
+    (Go.validateFuel lawEnv 3 [] (GoVal.ofJson lawBad) 25).verdict = some (b1 && b2) :=
+  adjacent_keywords_go lawEnv lawEnv_wf lawEnv_store 2 [] (fun _ h => nomatch h) 25 _ lawBad (by decide) 26 27 _ _ lawSel
+    rfl rfl rfl rfl rfl ⟨rfl, rfl⟩ rfl rfl (lawScope 26 25 (by decide) (by decide)) (lawScope 27 25 (by decide) (by decide))
+    (by decide) (by decide)
+example : (Go.validateFuel lawEnv 3 [] (GoVal.ofJson lawBad) 26).verdict = some false
+    ∧ (Go.validateFuel lawEnv 3 [] (GoVal.ofJson lawBad) 27).verdict = some true
+    ∧ (Go.validateFuel lawEnv 3 [] (GoVal.ofJson lawBad) 25).verdict = some false := by decide
+/-- equivalently `allOf [26, 27]` (node 28) -/
+example : Spec.evalFuel (specEnvOf lawEnv) 4 [] 28 lawGood
+    = Laws.oconj2 (Spec.evalFuel (specEnvOf lawEnv) 3 [28] 26 lawGood) (Spec.evalFuel (specEnvOf lawEnv) 3 [28] 27 lawGood) :=
+  allOf_pair _ 3 [] 28 _ lawGood 26 27 rfl rfl
+/-- one step, any recursive calls: the store with node 25 reduced to the selected groups / to the others -/
+example (rec : Spec.Rec) : Inv.OutSim (Spec.evalStep (specEnvOf lawEnv) rec [] 25 lawGood)
+    (Laws.oconj2
+      (Spec.evalStep { specEnvOf lawEnv with st := lawStore.setIfInBounds 25 (Laws.pick lawSel (lawStore.getD 25 {})) }
+        rec [] 25 lawGood)
+      (Spec.evalStep { specEnvOf lawEnv with
+          st := lawStore.setIfInBounds 25 (Laws.pick (fun g => !lawSel g) (lawStore.getD 25 {})) } rec [] 25 lawGood)) :=
+  adjacent_keywords_step (specEnvOf lawEnv) [] 25 _ lawGood rec lawSel rfl ⟨rfl, rfl⟩ (Or.inl rfl)
+
+/-- **Where the law does NOT hold** — keywords of one group split apart.  `additionalProperties` reads the adjacent
+    `properties`: `{"properties": {"a": {}}, "additionalProperties": false}` (29) accepts `{"a": "x"}`, while
+    `{"additionalProperties": false}` alone (31) rejects it — the whole is not the conjunction of 30 and 31 -/
+example : (Spec.evalFuel (specEnvOf lawEnv) 4 [] 29 lawGood).map (·.isSome) = some true
+    ∧ (Spec.evalFuel (specEnvOf lawEnv) 4 [] 30 lawGood).map (·.isSome) = some true
+    ∧ (Spec.evalFuel (specEnvOf lawEnv) 4 [] 31 lawGood).map (·.isSome) = some false := by decide
+example : (Go.validateFuel lawEnv 4 [] (GoVal.ofJson lawGood) 29).verdict = some true
+    ∧ (Go.validateFuel lawEnv 4 [] (GoVal.ofJson lawGood) 31).verdict = some false := by decide
+/-- `items` reads the adjacent `prefixItems`: `{"prefixItems": [{"type": "string"}], "items": false}` (32) accepts `["x"]`,
+    `{"items": false}` alone (34) rejects it -/
+example : (Spec.evalFuel (specEnvOf lawEnv) 4 [] 32 (.arr [.str "x"])).map (·.isSome) = some true
+    ∧ (Spec.evalFuel (specEnvOf lawEnv) 4 [] 33 (.arr [.str "x"])).map (·.isSome) = some true
+    ∧ (Spec.evalFuel (specEnvOf lawEnv) 4 [] 34 (.arr [.str "x"])).map (·.isSome) = some false := by decide
+/-- `unevaluatedProperties` reads everything: `{"properties": {"a": {}}, "unevaluatedProperties": false}` (35) accepts
+    `{"a": "x"}`, `{"unevaluatedProperties": false}` alone (36) rejects it -/
+example : (Spec.evalFuel (specEnvOf lawEnv) 4 [] 35 lawGood).map (·.isSome) = some true
+    ∧ (Spec.evalFuel (specEnvOf lawEnv) 4 [] 36 lawGood).map (·.isSome) = some false := by decide
+/-- the scope laws: the wrapper 4 = `allOf [2]` is of the schema resource of node 2 -/
+example : Spec.evalFuel (specEnvOf lawEnv) 3 [] 4 lawGood = Spec.evalFuel (specEnvOf lawEnv) 2 [] 2 lawGood :=
+  allOf_singleton_same_resource _ 2 [] 4 _ lawGood 2 rfl rfl rfl
+example : Spec.evalFuel (specEnvOf lawEnv) 4 [] 10 lawGood
+    = (Spec.evalFuel (specEnvOf lawEnv) 2 [] 2 lawGood).map fun r => r.map fun _ => {} :=
+  not_not_same_resource _ 2 [] 10 _ lawGood 11 _ 2 rfl rfl rfl rfl rfl rfl
 
 end JSV.C01
